@@ -136,38 +136,98 @@ structure KernSpec {σ : Type} (K : Kern σ n) (B : RMat n) (κ : ℚ) (Inv : σ
 
 variable {σ : Type} {K : Kern σ n} {B : RMat n} {κ : ℚ} {Inv : σ → (Fin n → Fin n) → Prop}
 
-/-- what `visit` does: nothing, or the move to a module whose coded gain exceeds the threshold -/
+theorem argmaxFirst_lt (f : Fin n → ℚ) (lim : ℕ) (b : Fin n) (v : ℚ)
+    (h : argmaxFirst f lim = some (b, v)) : b.val < lim := by
+  unfold argmaxFirst at h
+  have key : ∀ (l : List (Fin n)) (init : Option (Fin n × ℚ)),
+      (∀ b v, init = some (b, v) → b.val < lim) →
+      ∀ b v, l.foldl (fun best t =>
+        if t.val < lim then
+          match best with
+          | none => some (t, f t)
+          | some (b, v) => if v < f t then some (t, f t) else some (b, v)
+        else best) init = some (b, v) → b.val < lim := by
+    intro l
+    induction l with
+    | nil => intro init hi b v h; exact hi b v h
+    | cons t l ih =>
+      intro init hi b v h
+      simp only [List.foldl_cons] at h
+      refine ih _ ?_ b v h
+      intro b' v' h'
+      split_ifs at h' with hl
+      · cases hinit : init with
+        | none => simp [hinit] at h'; rcases h' with ⟨rfl, rfl⟩; exact hl
+        | some p =>
+          obtain ⟨b0, v0⟩ := p
+          simp only [hinit] at h'
+          split_ifs at h' with hv
+          · simp at h'; rcases h' with ⟨rfl, rfl⟩; exact hl
+          · simp at h'; rcases h' with ⟨rfl, rfl⟩; exact hi _ _ hinit
+      · exact hi _ _ h'
+  exact key _ none (by simp) b v h
+
+theorem chooseWith_some (f : Fin n → ℚ) (lim : ℕ) (g g' : GState) (u : ℕ) (mb : Fin n)
+    (h : chooseWith f lim g u = (some mb, g')) : mb.val < lim ∧ thr < f mb := by
+  unfold chooseWith at h
+  cases hA : argmaxFirst f lim with
+  | none => simp [hA] at h
+  | some p =>
+    obtain ⟨mb0, mx⟩ := p
+    simp only [hA] at h
+    have hv := argmaxFirst_val _ _ _ _ hA
+    have hl := argmaxFirst_lt _ _ _ _ hA
+    cases hg : g.guide with
+    | none =>
+      simp only [hg] at h
+      split_ifs at h with hthr
+      · simp only [Prod.mk.injEq, Option.some.injEq] at h
+        obtain ⟨rfl, _⟩ := h
+        exact ⟨hl, hv ▸ hthr⟩
+      · simp at h
+    | some l =>
+      cases l with
+      | nil => simp [hg] at h
+      | cons e rest =>
+        obtain ⟨p, un, tn⟩ := e
+        simp only [hg] at h
+        split_ifs at h with h1 h2 h3 h4
+        all_goals first
+          | (simp only [Prod.mk.injEq, Option.some.injEq] at h
+             obtain ⟨rfl, _⟩ := h
+             exact ⟨h3.1, h3.2.1⟩)
+          | (simp at h)
+
+/-- whichever way the target is chosen — first maximum of the replay, or bct's recorded choice when a run
+is validated — a chosen target lies in the searched range, differs from the current module and has a coded
+gain above the threshold -/
+theorem choose_some (K : Kern σ n) (lim : ℕ) (x : PSt σ n) (u mb : Fin n) (g : GState)
+    (h : choose K lim x u = (some mb, g)) :
+    mb.val < lim ∧ mb ≠ x.m[u] ∧ thr < K.dq x.st u x.m[u] mb := by
+  unfold choose at h
+  obtain ⟨h1, h2⟩ := chooseWith_some _ _ _ _ _ _ h
+  simp only [Fin.getElem_fin, Vector.getElem_ofFn, Fin.eta] at h2
+  unfold gainVec at h2
+  by_cases e : mb = x.m[(u : ℕ)]
+  · rw [if_pos e] at h2; exact absurd (lt_trans thr_pos h2) (lt_irrefl _)
+  · rw [if_neg e] at h2; exact ⟨h1, e, h2⟩
+
+/-- what `visit` does: labels and bookkeeping untouched, or the move to a module in range whose coded gain
+exceeds the threshold -/
 theorem visit_cases (K : Kern σ n) (lim : ℕ) (x : PSt σ n) (u : Fin n) :
-    visit K lim x u = (x, false) ∨
-    ∃ mb : Fin n, mb ≠ x.m[u] ∧ thr < K.dq x.st u x.m[u] mb ∧
+    ((visit K lim x u).1.st = x.st ∧ (visit K lim x u).1.m = x.m ∧ (visit K lim x u).2 = false) ∨
+    ∃ mb : Fin n, mb.val < lim ∧ mb ≠ x.m[u] ∧ thr < K.dq x.st u x.m[u] mb ∧
       (visit K lim x u).1.st = K.move x.st u x.m[u] mb ∧ (visit K lim x u).1.m = x.m.set u mb ∧
       (visit K lim x u).2 = true := by
   unfold visit
-  simp only
-  cases hA : argmaxFirst (fun t => (Vector.ofFn (gainVec K x.st u x.m[u]))[t]) lim with
-  | none => left; rfl
-  | some p =>
-    obtain ⟨mb, mx⟩ := p
-    simp only
-    by_cases hthr : thr < mx
-    · right
-      have hv := argmaxFirst_val _ _ _ _ hA
-      simp only [Fin.getElem_fin, Vector.getElem_ofFn, Fin.eta] at hv
-      have hmx : 0 < mx := lt_trans thr_pos hthr
-      unfold gainVec at hv
-      have hne : mb ≠ x.m[u] := by
-        intro e
-        rw [if_pos (show mb = x.m[(u : ℕ)] from e)] at hv
-        rw [hv] at hmx
-        exact lt_irrefl _ hmx
-      rw [if_neg (show ¬ mb = x.m[(u : ℕ)] from hne)] at hv
-      refine ⟨mb, hne, ?_, ?_, ?_, ?_⟩
-      · exact hv ▸ hthr
-      · simp only [hthr, if_true]
-      · simp only [hthr, if_true]
-      · simp only [hthr, if_true]
-    · left
-      simp only [hthr, if_false]
+  cases hc : choose K lim x u with
+  | mk tgt g =>
+    cases tgt with
+    | none => left; exact ⟨rfl, rfl, rfl⟩
+    | some mb =>
+      right
+      obtain ⟨h1, h2, h3⟩ := choose_some K lim x u mb g hc
+      exact ⟨mb, h1, h2, h3, rfl, rfl, rfl⟩
 
 /-- one visited node: invariant kept, objective does not decrease, and strictly increases if the node moved -/
 theorem visit_spec (hK : KernSpec K B κ Inv) (lim : ℕ) (x : PSt σ n) (u : Fin n)
@@ -175,8 +235,8 @@ theorem visit_spec (hK : KernSpec K B κ Inv) (lim : ℕ) (x : PSt σ n) (u : Fi
     Inv (visit K lim x u).1.st (labOf (visit K lim x u).1.m) ∧
     Qobj B (labOf x.m) ≤ Qobj B (labOf (visit K lim x u).1.m) ∧
     ((visit K lim x u).2 = true → Qobj B (labOf x.m) < Qobj B (labOf (visit K lim x u).1.m)) := by
-  rcases visit_cases K lim x u with h | ⟨mb, hne, hthr, hst, hm, _⟩
-  · rw [h]; exact ⟨hx, le_rfl, by simp⟩
+  rcases visit_cases K lim x u with ⟨hst, hm, hfl⟩ | ⟨mb, _, hne, hthr, hst, hm, _⟩
+  · rw [hst, hm, hfl]; exact ⟨hx, le_rfl, by simp⟩
   · rw [hst, hm, labOf_set]
     have hne' : mb ≠ labOf x.m u := by simpa using hne
     have hg := hK.gain x.st (labOf x.m) hx u mb hne'
@@ -235,7 +295,7 @@ theorem passes_spec (hK : KernSpec K B κ Inv) (lim nh : ℕ) (fuel : ℕ) (x x'
     | ok p =>
       obtain ⟨us, rest'⟩ := p
       simp only [hp] at h
-      obtain ⟨h1, h2, _⟩ := pass_spec hK lim us x hx
+      obtain ⟨h1, h2, _⟩ := pass_spec hK lim us { x with g := { x.g with passNo := x.g.passNo + 1 } } hx
       split_ifs at h with hfl
       · obtain ⟨h3, h4⟩ := ih _ _ h1 h
         exact ⟨h3, le_trans h2 h4⟩
